@@ -39,6 +39,10 @@ type RC struct {
 	Evals map[string]int
 	Fired map[string]int // harness-level fault kinds (peer-drop, cancel, ...)
 	Infra []string
+	// Index is the global index of this run in the batch (run i of worker w of W has index i*W+w); enumerating scenarios decode it.
+	Index int
+	// Gauges are merged across runs by maximum (e.g. sizes of enumerated spaces).
+	Gauges map[string]int
 	// Nontrivial is set by the scenario when the case counts as non-trivial by
 	// the property's stated rule (in addition to preemptions / transport faults).
 	Nontrivial bool
@@ -103,6 +107,7 @@ func (rc *RC) Teardown() []string {
 	rc.S.PausePerm = 0
 	for _, t := range rc.S.Tasks() {
 		t.Daemon = false
+		t.Frozen = false
 	}
 	st := rc.S.Run(nil, 20000, 10*time.Minute)
 	if st == simrt.AllDone {
@@ -189,6 +194,7 @@ type RunResult struct {
 	Draws       map[string][]int `json:"draws,omitempty"`
 	Nontrivial  bool             `json:"nontrivial"`
 	CaseHash    uint64           `json:"case_hash"`
+	Gauges      map[string]int   `json:"gauges,omitempty"`
 }
 
 // Scenario is the executable form of one property's check.
@@ -197,6 +203,9 @@ type Scenario struct {
 	Run func(rc *RC)
 	// NoSched scenarios (E4) do not need the scheduler or the bubble.
 	NoSched bool
+	// FixedSeed lets an enumerating scenario pin the seed of a run (so that
+	// every enumerated fault position is applied to the same execution).
+	FixedSeed func(tier string, index int, master uint64) (uint64, bool)
 }
 
 var scenarios = map[string]*Scenario{}
@@ -220,11 +229,11 @@ func hashStr(s string) uint64 {
 
 // execRun executes one run of sc: one seed (plus optional overrides) is one
 // exactly repeatable execution.
-func execRun(t *testing.T, sc *Scenario, tier string, seed uint64, overrides map[string][]int) (res RunResult) {
+func execRun(t *testing.T, sc *Scenario, tier string, seed uint64, index int, overrides map[string][]int) (res RunResult) {
 	res.Seed = seed
-	rc := &RC{Prop: sc.ID, Tier: tier, Seed: seed, Evals: map[string]int{}, Fired: map[string]int{}}
+	rc := &RC{Prop: sc.ID, Tier: tier, Seed: seed, Index: index, Evals: map[string]int{}, Fired: map[string]int{}, Gauges: map[string]int{}}
 	finish := func() {
-		res.Fails, res.Infra, res.Desc, res.Evals = rc.Fails, rc.Infra, rc.Desc, rc.Evals
+		res.Fails, res.Infra, res.Desc, res.Evals, res.Gauges = rc.Fails, rc.Infra, rc.Desc, rc.Evals, rc.Gauges
 		res.Fired = map[string]int{}
 		mergeCounts(res.Fired, rc.Fired)
 		res.Draws = rc.Ch.Draws()
